@@ -72,6 +72,12 @@ CHECKS = {
          '~26 000 (quick) / ~450 000 (thorough) executed (program, binding table, attribute permutation) triples: an exhaustive layer over every admissible subset of {define, condition, repeat, switch, case, content|replace, omit-tag, attributes} on one element with all permutations of up to 4 statement attributes and several value vectors, and a random layer of nested programs (switch/case across levels, tuple defines and repeats, global defines, tal: namespace elements, one planted failure in 15% of the tables) with visibility probes between the elements.',
          'Trusted: the reference model vlib/tmodel.py (about 200 lines, never calls Chameleon); the order of attribute expressions inside one start tag is compared as a multiset (DESIGN §2.3); generator exclusions in the evidence rule.',
          'DESIGN.md §3 C01'),
+ 'C13': ('model-diff',
+         'runtime history checking: generated programs with tal:on-error on random subsets of elements and planted failure sets, rendered by the real engine; output, evaluation log, escaping exception and the calls received by on_error_handler compared with the reference model',
+         'exploration',
+         '16 000 (quick) / 256 000 (thorough) executed (program, binding table, failure set) triples; on-error nested to depth 3 (quick) / 4 (thorough) with define / repeat / switch / case / content / replace / attributes / tal: namespace elements in between; failure sets of 1..2 expression occurrences (70% aimed inside handlers, incl. fallback expressions themselves); ~4 000 handled failures per quick run, each checked for exactly one handler call; visibility probes after every element.',
+         'Trusted: reference model vlib/tmodel.py; constructs on which the statement is silent are not generated (listed in the evidence rule).',
+         'DESIGN.md §3 C13'),
 }
 NOT_YET = {}
 
